@@ -262,16 +262,24 @@ def work(shard, tier):
         nums = []
         special = C.synth_constant_prefixes(name, rng, cap=40 if tier == 'quick' else 400)
         # numbers next to the entries of a documented whitelist of issued numbers with a wrong check digit
-        wl = sorted(getattr(mod, 'whitelist', ()) or ())
-        if wl:
+        try:
+            wl = sorted(str(x) for x in (getattr(mod, 'whitelist', ()) or ()))
+        except Exception:  # noqa: B902
+            wl = []
+        if wl or name == 'do.cedula':
             snap = _cedula_snapshot() if name == 'do.cedula' else set(wl)
-            picks = [x for x in wl if x not in snap] + rng.sample(wl, min(len(wl), 20 if tier == 'quick' else 300))
-            for wnum in picks[:60 if tier == 'quick' else 1000]:
+            known = sorted(snap)
+            # entries shorter than the usual length, zero-filled (a whitelist test on the numeric value would take them)
+            full = max(len(x) for x in known) if known else 0
+            picks = [x.zfill(full) for x in known if len(x) < full]
+            extra_wl = [x for x in wl if x not in snap and x.zfill(full) not in snap and x.lstrip('0') not in {k.lstrip('0') for k in known}]
+            picks += extra_wl[:40] + rng.sample(known, min(len(known), 20 if tier == 'quick' else 300))
+            for wnum in picks[:80 if tier == 'quick' else 1000]:
                 for p in range(len(wnum)):
                     for d in '0123456789':
                         if d != wnum[p]:
                             cand = wnum[:p] + d + wnum[p + 1:]
-                            if cand not in wl and C.outcome(mod.is_valid, cand) == ('ok', True):
+                            if cand not in snap and C.outcome(mod.is_valid, cand) == ('ok', True):
                                 special.append(cand)
         for v in base + C.synth_valid(name, 6 if tier == 'quick' else 400, rng, base=base) + special:
             o = C.outcome(mod.validate, v)
@@ -287,14 +295,27 @@ def work(shard, tier):
             fams = sorted({t[0] for t, _a in seen})
             if name == 'imei' and len(v) != 15:
                 continue
+            embedded = False
             if not listed and not args:
-                continue
+                # a longer presentation of a number whose shorter form is protected (BN15 = BN9 + program account): the
+                # protected part stays protected
+                for k in sorted({len(x) for x in nums if len(x) < len(v)}, reverse=True):
+                    del seen[:]
+                    if C.outcome(mod.is_valid, v[:k]) == ('ok', True) and seen:
+                        args = [a for _t, a in seen]
+                        fams = sorted({t[0] for t, _a in seen})
+                        embedded = True
+                        break
+                if not embedded:
+                    continue
             if listed:
                 positions = set(range(len(v)))
                 family = ','.join(fams) or 'own weighted sum'
             else:
-                positions, unmapped = covered_positions(v, args)
-                family = ','.join(fams)
+                positions, unmapped = covered_positions(v[:k] if embedded else v, args)
+                family = ','.join(fams) + (' (through its %d-character form)' % k if embedded else '')
+                if embedded:
+                    counters['embedded_protected_numbers'] = counters.get('embedded_protected_numbers', 0) + 1
                 counters['delegating_numbers'] += 1
                 if unmapped and not positions:
                     counters['numbers_unmapped_span'] += 1
